@@ -9,16 +9,15 @@
                                  entry: under the `after` server with the current data, none if pending; every
                                  other node is untouched
       C09_published_equals_model the same as equality (node by node) with the model's placement
-      C09_startup_names          after Master.init_schedule the NAMES under every server of the model are exactly
-                                 server.apps
+      C09_startup_content        after Master.init_schedule the nodes under every server of the model are exactly
+                                 server.apps, each with the current placement data (identity, identity_count,
+                                 expires)   [repaired by "fix: init_schedule reconciles the content of placement
+                                 nodes, not only their names"; old failing input: C09_startup_content_regression]
     under the two hypotheses that tie the store to what the cycle read, which the publication cannot check
     because it reads nothing back:
       [within_before]        no entry of a listed instance outside its `before` server
       [unchanged_published]  for an instance the cycle left alone the stored data is the current data.
-    REFUTED ON THE UNCHANGED TREE (model follows the code):
-      C09_startup_content_refuted   init_schedule reconciles by name only: a node that exists keeps stale
-                                    identity / expires (confirmed on the real Master: signatures
-                                    stale-identity-after-restart-name-only-reconcile, stale-expiry-after-restart-...)
+    REFUTED ON THE CURRENT TREE (known findings; model follows the code):
       C09_unchanged_needed_refuted  [unchanged_published] is necessary: when a handler changes the data of a placed
                                     instance (Loader.reload_server re-puts instances with a new expiry) and the cycle
                                     then reports "nothing changed", the stale data stays (signature
@@ -32,7 +31,8 @@ From TM Require Import Master.Publish Master.PublishP Gen.Tables.
 Import ListNotations.
 Open Scope Z_scope.
 
-Definition c10_cfg : cfg := cfg_of_tables c10_reschedule_phases c10_changed_filter c10_init_phases.
+Definition c10_cfg : cfg :=
+  cfg_of_tables c10_reschedule_phases c10_changed_filter c10_init_phases c10_init_flags c10_integrity_flags.
 
 Theorem C09_source_shape : cfg_canonical c10_cfg = true.
 Proof. vm_compute. reflexivity. Qed.
@@ -65,31 +65,25 @@ Proof.
 Qed.
 Print Assumptions C09_published_equals_model.
 
-Theorem C09_startup_names : forall st i members,
+Theorem C09_startup_content : forall st i members,
   NoDup (map fst members) ->
   let final := apply_writes st (init_writes c10_cfg st i members) in
   (forall s correct, In (s, correct) members -> forall a,
-     lookup final s a =
-     if zmem a correct
-     then match lookup st s a with Some d => Some d | None => Some (get_info i a) end
-     else None) /\
+     lookup final s a = if zmem a correct then Some (get_info i a) else None) /\
   (forall s, ~ In s (map fst members) -> forall a, lookup final s a = lookup st s a).
 Proof.
   intros st i members H. exact (init_final c10_cfg st i members C09_source_shape H).
 Qed.
-Print Assumptions C09_startup_names.
+Print Assumptions C09_startup_content.
 
-(** group shrunk while no master ran: the store says identity 2, the restarted model runs the instance with
-    identity 0 on the same server; init_schedule leaves the node as it is *)
-Theorem C09_startup_content_refuted : exists st i members s a,
-  NoDup (map fst members) /\ In (s, [a]) members /\
-  lookup (apply_writes st (init_writes c10_cfg st i members)) s a <> Some (get_info i a).
-Proof.
-  exists [(1, 7, mkPD (Some 2) (Some 3) (Some 100))], [(7, mkPD (Some 0) (Some 2) (Some 100))], [(1, [7])], 1, 7.
-  split; [repeat constructor; cbn; intuition|]. split; [left; reflexivity|].
-  vm_compute. discriminate.
-Qed.
-Print Assumptions C09_startup_content_refuted.
+(** regression: group shrunk while no master ran: the store says identity 2, the restarted model runs the instance
+    with identity 0 on the same server; init_schedule used to leave the node as it was, now it rewrites it *)
+Example C09_startup_content_regression :
+  let st := [(1, 7, mkPD (Some 2) (Some 3) (Some 100))] in
+  let i := [(7, mkPD (Some 0) (Some 2) (Some 100))] in
+  flat_writes (init_writes c10_cfg st i [(1, [7])]) = [3; 3; 1; 2; 1; 7; 1; 0; 1; 2; 1; 100; 6] /\
+  lookup (apply_writes st (init_writes c10_cfg st i [(1, [7])])) 1 7 = Some (get_info i 7).
+Proof. vm_compute. split; reflexivity. Qed.
 
 (** the cycle reports instance 7 as unchanged (same server, same expiry) but a handler has given it a new expiry
     since the node was written: nothing is rewritten *)
